@@ -108,6 +108,9 @@ def modelLine (s : State) (line : String) : State × String :=
     match MtGenesis.importGenesis (MtGenesis.exportGenesis s) with
     | .ok s' => (s', "ok " ++ showState s')
     | .error _ => (s, "panic " ++ showState s)
+  | "mt" :: "ghost" :: _ =>
+    -- an execution on a context that is thrown away: the state is what it was
+    (s, "ghost " ++ showState s)
   | _ =>
     match parseOp t with
     | none => (s, "bad-op")
@@ -142,6 +145,13 @@ def runMonitor (ops obs : Array String) : IO Unit := do
       | some s => pre := s
       | none => out.putStrLn s!"mon C15 FAIL clause=obs-parse line={i+1}"; fails := fails + 1
     | ["mt", "export"] => pure ()
+    | "mt" :: "ghost" :: _ =>
+      match parseState o with
+      | some post =>
+        if !(Spec.C15.sameState pre post) then
+          out.putStrLn s!"mon C15 FAIL clause=ghost-visible line={i+1}"; fails := fails + 1
+        pre := post
+      | none => out.putStrLn s!"mon C15 FAIL clause=obs-parse line={i+1}"; fails := fails + 1
     | ["mt", "reimport"] =>
       -- a re-import must preserve every balance, supply, class and token (C12 for MT; C15's invariant again)
       match parseState o with
